@@ -80,6 +80,13 @@ func genWorkload(r *rand.Rand, ntasks int) *workload {
 			switch kind {
 			case "create":
 				c.Val, _ = valFor(api, id+" new")
+				if api == "snap" && r.IntN(5) == 0 {
+					// an entry around the sizes at which buffered writers change their behaviour
+					// (4 KiB, 64 KiB) or well beyond: it must still reach the file as one step
+					// of the serial order
+					n := []int{4000, 4096, 4200, 65400, 65536, 65600, 70000, 200000}[r.IntN(8)]
+					c.Val += " " + strings.Repeat("B", n)
+				}
 			case "match":
 				c.Val = oldIn
 				w.Seed[id] = oldStored
